@@ -368,6 +368,9 @@ static void ZSTD_DCtx_selectFrameDDict(ZSTD_DCtx* dctx) {
             dctx->dictID = dctx->fParams.dictID;
             dctx->ddict = frameDDict;
             dctx->dictUses = ZSTD_use_indefinitely;
+            /* single-pass and buffer-less decoding have already begun with the previously referenced DDict :
+             * switch the dictionary content and tables too, not only the ID */
+            ZSTD_copyDDictParameters(dctx, frameDDict);
         }
     }
 }
@@ -974,6 +977,10 @@ static size_t ZSTD_decompressFrame(ZSTD_DCtx* dctx,
                         srcSize_wrong, "");
         FORWARD_IF_ERROR( ZSTD_decodeFrameHeader(dctx, ip, frameHeaderSize) , "");
         ip += frameHeaderSize; remainingSrcSize -= frameHeaderSize;
+        /* the header may just have selected this frame's dictionary among several referenced DDicts :
+         * dst is not contiguous with that dictionary */
+        if (dctx->refMultipleDDicts == ZSTD_rmd_refMultipleDDicts && dctx->ddictSet)
+            ZSTD_checkContinuity(dctx, dst, dstCapacity);
     }
 
     /* Shrink the blockSizeMax if enabled */
